@@ -20,22 +20,24 @@ import (
 
 func DoubleQuotesToBackTick(str string) (string, error) {
 	buffer := bytes.NewBufferString("")
+	// the text is scanned byte by byte and every byte is handed through as it is: the bytes of a
+	// multi-byte character are never looked at one by one as if each were a character of its own
 	for i := 0; i < len(str); i++ {
 		r := rune(str[i])
 		switch r {
 		case '\'':
 			{
-				buffer.WriteRune(r)
+				buffer.WriteByte(byte(r))
 				i++
 				r = '0'
 				for ; i < len(str) && r != '\''; i++ {
 					r = rune(str[i])
-					buffer.WriteRune(r)
+					buffer.WriteByte(byte(r))
 					if r == '\\' {
 						if i+1 == len(str) {
 							return "", fmt.Errorf("index out of range")
 						}
-						buffer.WriteRune(rune(str[i+1]))
+						buffer.WriteByte(str[i+1])
 						i++
 					}
 				}
@@ -43,12 +45,12 @@ func DoubleQuotesToBackTick(str string) (string, error) {
 			}
 		case '`':
 			{
-				buffer.WriteRune(r)
+				buffer.WriteByte(byte(r))
 				i++
 				r = '0'
 				for ; i < len(str) && r != '`'; i++ {
 					r = rune(str[i])
-					buffer.WriteRune(r)
+					buffer.WriteByte(byte(r))
 				}
 				i--
 			}
@@ -81,19 +83,19 @@ func DoubleQuotesToBackTick(str string) (string, error) {
 						}
 						next := str[i+1]
 						if next == '"' {
-							buffer.WriteRune(rune(next))
+							buffer.WriteByte(next)
 							i++
 							continue
 						}
 					}
-					buffer.WriteRune(r)
+					buffer.WriteByte(byte(r))
 				}
 				i--
 				continue
 			}
 		default:
 			{
-				buffer.WriteRune(r)
+				buffer.WriteByte(byte(r))
 			}
 		}
 	}
